@@ -62,7 +62,9 @@ def check_coordinates(inp, out):
 class C10(Prop):
     id = "C10"
     theorems = ["isPerm_mem", "transposeBy_dims", "transposeBy_axes", "transposeBy_at", "transposeBy_attrs",
-                "transpose_inv_axes", "transpose_inv_at", "newaxis_at", "squeezeDim_at", "repeatDim_at", "rollPerm_isPerm"]
+                "transpose_inv_axes", "transpose_inv_at", "newaxis_at", "squeezeDim_at", "repeatDim_at", "rollPerm_isPerm", "transposeBy_spec", "transpose_names_spec", "transpose_keys_spec", "transpose_keys_interchangeable", "swapaxes_keys_interchangeable", "transpose_default_spec",
+                "swapaxes_spec", "rollaxis_spec", "rollaxis_lands_before", "squeeze_axis_spec", "squeeze_all_spec", "repeat_spec",
+                "newaxis_spec", "newaxis_values_spec", "broadcast_spec", "sameByName_unique", "sameOn_unique"]
     rule = ("arrays of rank 0-4 whose axes have pairwise different lengths and mixed kinds (a share with singleton "
             "axes), carrying array- and axis-level metadata; chains of 1-4 steps among transpose (list / tuple / varargs, "
             "names / positions / negative positions, default, .T), swapaxes, rollaxis (every axis, start), newaxis (every "
